@@ -27,7 +27,14 @@ def run_server(proto, world, client_fragments, ctx=None):
             info["early_shutdown"] = bool(getattr(srv, "_BaseServer__shutdown_request", False))
             srv._BaseServer__shutdown_request = True
     sched.on_horizon = on_horizon
-    saved = (socketserver.socket, socketserver._ServerSelector, socketserver.threading, SRV.threading)
+    import socket as real_socket
+    saved = (socketserver.socket, socketserver._ServerSelector, socketserver.threading,
+             vars(SRV).get("threading"))
+    saved_sock = (real_socket.setdefaulttimeout, real_socket.getdefaulttimeout)
+    # what the code under test set before the server was started (e.g. while connecting to the
+    # device) is carried into the model and taken off the real process
+    net.default_timeout = real_socket.getdefaulttimeout()
+    real_socket.setdefaulttimeout(None)
     fake_thr = vnet.FakeThreadingModule(sched)
     rt = vnet.real_threading
     saved_rt = (rt.Thread, rt.Timer)
@@ -39,7 +46,15 @@ def run_server(proto, world, client_fragments, ctx=None):
         socketserver.socket = vnet.FakeSocketModule(net)
         socketserver._ServerSelector = lambda: vnet.FakeSelector(net)
         socketserver.threading = fake_thr
-        SRV.threading = fake_thr
+        if "threading" in vars(SRV):
+            SRV.threading = fake_thr
+        # a process-wide default socket timeout set by the code under test reaches the sockets the
+        # server accepts afterwards
+
+        def setdefaulttimeout(t):
+            net.default_timeout = t
+        real_socket.setdefaulttimeout = setdefaulttimeout
+        real_socket.getdefaulttimeout = lambda: net.default_timeout
 
         def body():
             try:
@@ -52,7 +67,9 @@ def run_server(proto, world, client_fragments, ctx=None):
         sched.run_main(main)
     finally:
         rt.Thread, rt.Timer = saved_rt
-        (socketserver.socket, socketserver._ServerSelector, socketserver.threading,
-         SRV.threading) = saved
+        (socketserver.socket, socketserver._ServerSelector, socketserver.threading, _thr) = saved
+        if _thr is not None:
+            SRV.threading = _thr
+        real_socket.setdefaulttimeout, real_socket.getdefaulttimeout = saved_sock
         world.on_exchange = None
     return net, info, crashed
